@@ -5,6 +5,7 @@ SPECIFICATION Spec
 CONSTANTS CpuFloorUs = 15000000
   CpuPerKiBUs = 100000
   AllocFloorKiB = 163840
+  OpenAllocFloorKiB = 16384
   AllocPerKiB = 4096
   MaxLenKiB = 16384
 CHECK_DEADLOCK FALSE
